@@ -475,6 +475,43 @@ def seq_call_shapes():
     }
 
 
+def typed_shapes():
+    """arrays (element read / write with constant and run-time index, signal and variable, with and without Null default) and
+    enumerations (comparison, match, select_with, if-expression) as operands (C02 "enum and array operands") -> {tag: (objs, body)}"""
+    A, B, D, S, V = ref("a"), ref("b"), ref("d"), ref("s"), ref("v")
+    ARR = TA(U2, 4)
+    EN = TE(4)
+    e = lambda k: lit(EN, k)
+    M, ST = ref("mem"), ref("st")
+    return {
+        "array_const_index": ([obj("mem", "signal", ARR, default=0)],
+                              [assign("next", target("mem", [p_idx(1)]), D), assign("next", "q", idx(M, 1)), if_(A, [assign("next", target("mem", [p_idx(3)]), S)]),
+                               assign("next", "s", idx(M, 3))]),
+        "array_runtime_index": ([obj("mem", "signal", ARR, default=0)],
+                                [if_(A, [assign("next", target("mem", [p_dynidx(D)]), S)]), assign("next", "q", dynidx(M, S)), assign("next", "s", bin_("add", S, pint(1)))]),
+        "array_no_default": ([obj("mem", "signal", ARR)],
+                             [assign("next", target("mem", [p_dynidx(D)]), D), assign("next", "q", dynidx(M, D)), assign("next", "o", resize(idx(M, 0), 3))]),
+        "array_variable": ([obj("mem", "variable", ARR, default=0)],
+                           [assign("value", target("mem", [p_dynidx(D)]), bin_("add", dynidx(M, D), pint(1))), assign("next", "q", dynidx(M, D)),
+                            assign("next", "s", idx(M, 2))]),
+        "array_element_in_expression": ([obj("mem", "signal", ARR, default=0)],
+                                        [assign("next", target("mem", [p_idx(0)]), D), assign("next", target("mem", [p_idx(1)]), bin_("add", idx(M, 0), idx(M, 1))),
+                                         assign("next", "o", bin_("add", resize(idx(M, 1), 3), resize(dynidx(M, D), 3))), assign("next", "p", bin_("lt", idx(M, 0), idx(M, 1)))]),
+        "enum_match": ([obj("st", "signal", EN, default=0)],
+                       [match_(ST, [(e(0), [if_(A, [assign("next", "st", e(1))]), assign("next", "o", pint(1))]),
+                                    (e(1), [assign("next", "st", e(2)), assign("next", "o", pint(2))]),
+                                    (e(2), [if_(B, [assign("next", "st", e(3))], [assign("next", "st", e(0))]), assign("next", "o", pint(3))])],
+                               default=[assign("next", "st", e(0)), assign("next", "o", pint(4))])]),
+        "enum_compare_select": ([obj("st", "signal", EN, default=1)],
+                                [assign("next", "st", select_(D, [(pint(0), e(0)), (pint(1), e(2)), (pint(2), e(3))], default=e(1))),
+                                 assign("next", "p", bin_("eq", ST, e(2))), assign("next", "q", select_(ST, [(e(0), D), (e(3), S)], default=NULL)),
+                                 assign("next", "s", ifexp(bin_("ne", ST, e(1)), D, S))]),
+        "enum_variable": ([obj("st", "variable", EN, default=0)],
+                          [if_(A, [assign("value", "st", e(3))]), if_(bin_("eq", ST, e(3)), [assign("next", "o", pint(5)), assign("value", "st", e(1))],
+                                                                      [assign("next", "o", pint(6))]), assign("next", "p", bin_("eq", ST, e(1)))]),
+    }
+
+
 def local_shapes():
     """signals constructed inside the context: immediate initialisation (reads in the same activation see the value, whole,
     sliced, indexed - constant and run-time), delayed_init, and chains of locals"""
@@ -500,6 +537,12 @@ def seq_designs(tier, rng, prefix, resets=(None,), with_extras=False, n_random=N
         for rst in resets:
             e = seq_entity(f"{prefix}_{k:04d}", body, rst, f"seq_{tag}", conc_body(rng))
             e["objs"] += [obj(n, "signal", U2, local=True) for n in locs]
+            ents.append(e)
+            k += 1
+    for tag, (objs, body) in typed_shapes().items():
+        for rst in resets:
+            e = seq_entity(f"{prefix}_{k:04d}", body, rst, f"seq_{tag}", conc_body(rng))
+            e["objs"] += objs
             ents.append(e)
             k += 1
     for tag, (funcs, body) in seq_call_shapes().items():
